@@ -36,8 +36,8 @@ def repo():
 
 
 KANI_FLAGS = ['-Z', 'function-contracts', '-Z', 'stubbing', '-Z', 'unstable-options']
-GROUP_TIMEOUT_S = int(os.environ.get('KANI_GROUP_TIMEOUT', '900'))      # whole `cargo kani` invocation
-HARNESS_TIMEOUT_S = int(os.environ.get('KANI_HARNESS_TIMEOUT', '240'))  # per harness (quick tier)
+GROUP_TIMEOUT_S = int(os.environ.get('KANI_GROUP_TIMEOUT', '2400'))      # whole `cargo kani` invocation
+HARNESS_TIMEOUT_S = int(os.environ.get('KANI_HARNESS_TIMEOUT', '600'))  # per harness (quick tier)
 PLAYBACK_TIMEOUT_S = 240
 JOBS = int(os.environ.get('KANI_JOBS', '8'))
 
